@@ -2,74 +2,15 @@ import Mathlib.LinearAlgebra.Matrix.Notation
 import Mathlib.Tactic.NormNum
 import TapkeeVerif.Proofs.LinearGraph
 /-!
-Helper lemmas for C10, second part: the patched routines (`npeProblemFixedD`, `lltsaProblemFixedD`,
-`lppProblemFixedD` = the code after `fixes/F-LIN-TRI.diff` + `fixes/F-LLTSA-CENTRE.diff`) in closed form, and the
-rotation algebra of the full forms (`Fᵀ M F ↦ R Fᵀ M F Rᵀ` under `x ↦ R x`, i.e. `F ↦ F Rᵀ`).
+Helper lemmas for C10, second part: the rotation algebra of the full forms (`Fᵀ M F ↦ R Fᵀ M F Rᵀ` under `x ↦ R x`,
+i.e. `F ↦ F Rᵀ`), of the linear kernel, the mean and the projection, and the concrete witnesses (3-4-5 rotation).
+(The file name is historical: it used to hold the closed forms of the then-proposed patched routines, which are now the
+model proper, `Proofs/LinearGraph.lean`.)
 -/
 namespace TapkeeVerif.LinearGraph
 open TapkeeVerif Matrix
 
 variable {K : Type} [Field K] {N D d : Nat}
-
-/-! ### the patched routines -/
-
-theorem mirrorUpperD_get (A : DMat D D K) : (mirrorUpperD A).get = Mat.upperView A.get := by
-  unfold mirrorUpperD
-  rw [DMat.get_ofFn]
-
-theorem mirror_weightSum {W : Mat N N K} (hW : ∀ r c, W r c = W c r) (F : Mat N D K) :
-    (mirrorUpperD (weightSumD W F)).get = fun i j => 2 * fullForm W F i j := by
-  rw [mirrorUpperD_get, weightSumD_get_symm hW]
-  exact upperView_upperOnly (fun i j => 2 * fullForm W F i j) (fun i j => by rw [fullForm_symm hW])
-
-theorem mirror_sampleSum (F : Mat N D K) (wt : Vec N K) :
-    (mirrorUpperD (sampleSumD F wt)).get = fullDiagForm wt F := by
-  rw [mirrorUpperD_get, sampleSumD_get_closed]
-  exact upperView_upperOnly _ (fullDiagForm_symm wt F)
-
-theorem mirror_centredSampleSum (F : Mat N D K) :
-    (mirrorUpperD (rankUpdate1D (sampleSumD F fun _ => 1) (DVec.ofFn (featureSum F)).get ((-1) / (N : K)))).get
-      = fullForm centering F := by
-  rw [mirrorUpperD_get]
-  simp only [rankUpdate1D, DMat.get_ofFn, DVec.get_ofFn]
-  rw [sampleSumD_get_closed, rankUpdate1_upperOnly]
-  have h : (fun i j : Fin D => if i ≤ j then
-        fullDiagForm (fun _ => 1) F i j + (-1) / (N : K) * (featureSum F i * featureSum F j) else 0)
-      = fun i j => if i ≤ j then fullForm centering F i j else 0 := by
-    funext i j
-    split
-    · rw [fullForm_centering]
-      ring
-    · rfl
-  rw [h]
-  refine upperView_upperOnly _ fun i j => ?_
-  rw [fullForm_centering, fullForm_centering]
-  exact centredMoment_symm F i j
-
-theorem npeFixed_get {W : Mat N N K} (hW : ∀ r c, W r c = W c r) (F : Mat N D K) :
-    (npeProblemFixedD W F).1.get = (fun i j => 2 * fullForm W F i j) ∧
-    (npeProblemFixedD W F).2.get = fullDiagForm (fun _ => 1) F :=
-  ⟨mirror_weightSum hW F, mirror_sampleSum F _⟩
-
-theorem lppFixed_get {L : Mat N N K} (hL : ∀ r c, L r c = L c r) (Dg : Vec N K) (F : Mat N D K) :
-    (lppProblemFixedD L Dg F).1.get = (fun i j => 2 * fullForm L F i j) ∧
-    (lppProblemFixedD L Dg F).2.get = fullDiagForm Dg F :=
-  ⟨mirror_weightSum hL F, mirror_sampleSum F Dg⟩
-
-theorem lltsaFixed_get {W : Mat N N K} (hW : ∀ r c, W r c = W c r) (F : Mat N D K) :
-    (lltsaProblemFixedD W F).1.get = (fun i j => 2 * fullForm W F i j) ∧
-    (lltsaProblemFixedD W F).2.get = fullForm centering F :=
-  ⟨mirror_weightSum hW F, mirror_centredSampleSum F⟩
-
-theorem two_fullForm_symm {W : Mat N N K} (hW : ∀ r c, W r c = W c r) (F : Mat N D K) (i j : Fin D) :
-    (fun i j => 2 * fullForm W F i j) i j = (fun i j => 2 * fullForm W F i j) j i := by
-  show 2 * fullForm W F i j = 2 * fullForm W F j i
-  rw [fullForm_symm hW]
-
-theorem fullForm_centering_symm (F : Mat N D K) (i j : Fin D) :
-    fullForm centering F i j = fullForm centering F j i := by
-  rw [fullForm_centering, fullForm_centering]
-  exact centredMoment_symm F i j
 
 /-! ### the full forms as matrix products -/
 
@@ -177,7 +118,7 @@ theorem rot345_diag_ne :
   simp only [Matrix.mul_apply, Fin.sum_univ_two, Matrix.transpose_apply, Matrix.diagonal_apply, Matrix.of_apply] at e
   norm_num [rot345, diag12] at e
 
-/-! ### the solver's view under rotation: equivariant after the patch, not before -/
+/-! ### the solver's view under rotation -/
 
 theorem two_fullForm_toM (W : Mat N N K) (F : Mat N D K) :
     Mat.toM (fun i j => 2 * fullForm W F i j) = (2 : K) • Mat.toM (fullForm W F) := by
@@ -189,13 +130,6 @@ theorem two_fullForm_rotate_toM (W : Mat N N K) (F : Mat N D K) (R : Mat D D K) 
       = Mat.toM R * Mat.toM (fun i j => 2 * fullForm W F i j) * (Mat.toM R)ᵀ := by
   rw [two_fullForm_toM, two_fullForm_toM, fullForm_rotate_toM, Matrix.mul_smul, Matrix.smul_mul]
 
-theorem genSolveLower_npe_fst {W : Mat N N K} (hW : ∀ r c, W r c = W c r) (F : Mat N D K) :
-    (genSolveLower (npeProblem W F)).1 = fun i j => if i = j then 2 * fullForm W F i i else 0 := by
-  funext i j
-  show Mat.lowerView (npeProblem W F).1 i j = _
-  rw [npe_lhs_get hW]
-  exact lowerView_upperOnly _ i j
-
 theorem refute_meta_00 : fullForm refuteW diag12 0 0 = 1 := by
   rw [fullForm_apply]
   simp [Fin.sum_univ_two, refuteW, diag12]
@@ -204,17 +138,5 @@ theorem refute_meta_11 : fullForm refuteW diag12 1 1 = 4 := by
   rw [fullForm_apply]
   simp [Fin.sum_univ_two, refuteW, diag12]
   norm_num
-
-/-- on the samples `(1,0)`, `(0,2)` with `W = 1` the solver's view of `lhs` is `diag(2, 8)`; after the 3-4-5 rotation
-    it is again diagonal, whereas `R diag(2,8) Rᵀ` has the off-diagonal entry `−72/25` -/
-theorem npe_view_not_equivariant_witness :
-    Mat.toM (genSolveLower (npeProblem refuteW (rotateRows rot345 diag12))).1
-      ≠ Mat.toM rot345 * Mat.toM (genSolveLower (npeProblem refuteW diag12)).1 * (Mat.toM rot345)ᵀ := by
-  intro h
-  have e := congrFun (congrFun h 0) 1
-  rw [genSolveLower_npe_fst refuteW_symm, genSolveLower_npe_fst refuteW_symm] at e
-  simp only [Matrix.mul_apply, Fin.sum_univ_two, Matrix.transpose_apply, Matrix.of_apply,
-    refute_meta_00, refute_meta_11] at e
-  norm_num [rot345] at e
 
 end TapkeeVerif.LinearGraph
